@@ -390,13 +390,15 @@ impl TracingEventReceiver {
         }
     }
 
-    fn create_local_span(&self, data: &SpanData) -> Result<Id, ReceiveError> {
+    fn create_local_span(&self, data: &SpanData, is_new: bool) -> Result<Id, ReceiveError> {
         let metadata = self.metadata(data.metadata_id)?;
-        let local_parent_id = data
-            .parent_id
-            .map(|parent_id| self.map_span_id(parent_id))
-            .transpose()?
-            .flatten();
+        let local_parent_id = match data.parent_id {
+            // If the span is re-created lazily (e.g., after the host has lost local spans),
+            // its explicit parent may be validly dropped by this point.
+            Some(parent_id) if !is_new && !self.spans.inner.contains_key(&parent_id) => None,
+            Some(parent_id) => self.map_span_id(parent_id)?,
+            None => None,
+        };
 
         let value_set = Self::generate_fields(metadata, &data.values);
         let value_set = Self::expand_fields(&value_set);
@@ -442,7 +444,7 @@ impl TracingEventReceiver {
                     values,
                 };
                 if !self.local_spans.inner.contains_key(&id) {
-                    let local_id = self.create_local_span(&data)?;
+                    let local_id = self.create_local_span(&data, true)?;
                     self.local_spans.inner.insert(id, local_id);
                 }
                 self.spans.inner.insert(id, data);
@@ -466,7 +468,7 @@ impl TracingEventReceiver {
                     id.clone()
                 } else {
                     let data = self.span(id)?;
-                    let local_id = self.create_local_span(data)?;
+                    let local_id = self.create_local_span(data, false)?;
                     self.local_spans.inner.insert(id, local_id.clone());
                     local_id
                 };
